@@ -98,9 +98,11 @@ class Tree:
     def __init__(self):
         self.recs = []
 
-    def add(self, path, kind, name, **props):
+    def add(self, path, kind, name, _obj=None, **props):
         r = dict(path="/".join(path), kind=kind, name=(name or "").lower())
         r.update(props)
+        if _obj is not None and hasattr(_obj, "doc_list"):
+            r["doc"] = " ".join(" ".join(_obj.doc_list).split())
         self.recs.append(r)
         return path + (f"{kind}:{(name or '').lower()}",)
 
@@ -108,7 +110,7 @@ class Tree:
         from ford.sourceform import FortranVariable
 
         if isinstance(v, FortranVariable):
-            self.add(path, "variable", v.name, role=role, **var_props(v), **extra)
+            self.add(path, "variable", v.name, _obj=v, role=role, **var_props(v), **extra)
         elif isinstance(v, str):
             self.add(path, "variable", v, role=role, unresolved=True, **extra)
         else:
@@ -133,7 +135,8 @@ class Tree:
             props["args"] = []
             props["result"] = None
             props["attribs"] = []
-        sub = self.add(path, "proc", p.name, **props)
+        props["calls"] = sorted({(getattr(c, "name", c) or "").lower() for c in getattr(p, "calls", []) or []})
+        sub = self.add(path, "proc", p.name, _obj=p, **props)
         if not isinstance(p, FortranModuleProcedureImplementation):
             for a in getattr(p, "args", []):
                 self.var(a, sub, role="arg")
@@ -146,6 +149,7 @@ class Tree:
             path,
             "type",
             t.name,
+            _obj=t,
             extends=_name(t.extends),
             attribs=sorted(nb(a) for a in t.attribs),
             sequence=bool(getattr(t, "sequence", False)),
@@ -166,6 +170,7 @@ class Tree:
                 sub,
                 "binding",
                 b.name,
+                _obj=b,
                 generic=bool(b.generic),
                 deferred=bool(b.deferred),
                 proto=_name(b.proto) if b.proto else None,
@@ -173,19 +178,20 @@ class Tree:
                 bindings=[_name(x) for x in b.bindings],
             )
         for f in t.finalprocs:
-            self.add(sub, "final", f.name)
+            self.add(sub, "final", f.name, _obj=f)
 
     def interface(self, i, path, kind):
         from ford.sourceform import FortranModuleProcedureInterface
 
         if isinstance(i, FortranModuleProcedureInterface):
-            sub = self.add(path, kind, i.name, generic=False)
+            sub = self.add(path, kind, i.name, _obj=i, generic=False)
             self.proc(i.procedure, sub, role="interface-body")
             return
         sub = self.add(
             path,
             kind,
             i.name,
+            _obj=i,
             generic=bool(i.generic),
             modprocs=[_name(m) for m in i.modprocs],
             bodies=sorted(_name(r) for r in list(i.functions) + list(i.subroutines)),
@@ -232,7 +238,7 @@ class Tree:
         props = {}
         if kind == "submodule":
             props = dict(ancestor=_name(u.ancestor_module), parent_submodule=_name(u.parent_submodule))
-        sub = self.add(path, kind, u.name, **props)
+        sub = self.add(path, kind, u.name, _obj=u, **props)
         self.unit_body(u, sub)
 
     def file(self, f):
